@@ -319,6 +319,19 @@ def inspect(root: Path, handle, ref: dict, eps: int, fmt: str,
                 bad.append(("C08", "iteration-fails",
                             f"iterating {split}: {type(e).__name__}: {e}"))
                 continue
+            if sorted(it) != sorted(got):
+                # not a matter of order: iteration does not return what the
+                # metadata on disk lists (C08: committed examples intact and
+                # exactly the new ones added, as a reader sees them)
+                miss = collections.Counter(got) - collections.Counter(it)
+                extra = collections.Counter(it) - collections.Counter(got)
+                for prop in ("C08",):
+                    bad.append((prop, "iteration-content",
+                                f"split {split}: a fresh handle iterates "
+                                f"{len(it)} examples, the lists on disk hold "
+                                f"{len(got)}: missing "
+                                f"{sorted(miss.elements())} unexpected "
+                                f"{sorted(extra.elements())}"))
             if it != got:
                 bad.append(("C03", "iter-vs-listing",
                             f"split {split}: iteration order {it} differs "
@@ -371,6 +384,18 @@ def check_fullness(root: Path, info: dict, eps: int, struct) -> list:
 # ---------------------------------------------------------------------------
 # one history
 # ---------------------------------------------------------------------------
+HASH_VARIANTS = {"nohash": (), "2hash": ("xxh32", "md5")}
+
+
+def split_fmt(fmt: str) -> tuple[str, tuple, bool]:
+    """'fb' -> ('fb', ('sha256',), False); 'fb/nohash+reads' -> ('fb', (),
+    True): no checksum algorithms, and the dataset is opened, checked and
+    iterated (in this process) after every session, not only the last."""
+    fmt, plus, _ = fmt.partition("+reads")
+    base, _, variant = fmt.partition("/")
+    return base, HASH_VARIANTS.get(variant, ("sha256",)), bool(plus)
+
+
 def run_history(fmt: str, eps: int, history: list, inspect_all=False) -> dict:
     """Execute the history on a fresh directory; invariants are evaluated
     after the last session (after every session if inspect_all)."""
@@ -379,7 +404,9 @@ def run_history(fmt: str, eps: int, history: list, inspect_all=False) -> dict:
     root = core.fresh_dir("h")
     out = {"history": history, "violations": [], "key": None, "failed": False}
     try:
-        dataset = D.create(root, fmt=fmt, eps=eps)
+        fmt, hashes, reads = split_fmt(fmt)
+        inspect_all = inspect_all or reads
+        dataset = D.create(root, fmt=fmt, eps=eps, hashes=hashes)
         ref: dict = {}
         sessions: list = []
         for s, (kind, pattern, reopen) in enumerate(history):
@@ -435,10 +462,13 @@ def run_history(fmt: str, eps: int, history: list, inspect_all=False) -> dict:
                     out["where"] = where
                     return out
             if last or inspect_all:
-                bad, key = inspect(root, dataset, ref, eps, fmt)
+                bad, key = inspect(root, dataset, ref, eps, fmt, hashes)
                 bad += check_fullness(root, D.load_json(root /
                                                         "dataset_info.json"),
                                       eps, dataset.dataset_structure)
+                if not last:
+                    bad = [(p_, s_, f"(read back after session {s}) {m_}")
+                           for p_, s_, m_ in bad]
                 out["violations"].extend(bad)
                 out["key"] = key
         return out
